@@ -139,6 +139,14 @@ theorem pathMatch_eq_spec (syn : Syntax) (mode : Filemode) (pattern path base : 
         rw [search_iff_spec true (isReal pattern) _ Y hPn hYn (Or.inl rfl)]
 
 
+/-- **suppression file patterns** (`lib/suppressions.cpp` calls `PathMatch::match(fileName, path)`: empty base path,
+    regular file, platform syntax) follow the same rule; with an empty base path the shortcut needs no hypothesis -/
+theorem suppression_file_pattern_rule (pattern path : Str)
+    (hp : CanonDomain (rawPattern .unix pattern []).1 (rawPattern .unix pattern []).2 = true)
+    (hx : CanonDomain (rawPath .unix path []).1 (rawPath .unix path []).2 = true) :
+    pathMatch .fixed .unix .regular pattern path [] = true ↔ PathMatchSpec .unix .regular pattern path [] :=
+  pathMatch_eq_spec .unix .regular pattern path [] hp hx (fun _ => fastPathOk_unix pattern [] (Or.inr rfl))
+
 /-- the executable form of the rules used by the check (`spec` op of the driver) decides the documented rule -/
 theorem pathMatchSpecB_iff (syn : Syntax) (mode : Filemode) (pattern path base : Str) :
     pathMatchSpecB syn mode pattern path base = true ↔ PathMatchSpec syn mode pattern path base := by
